@@ -160,7 +160,7 @@ theorem last_version_visible (log : List Version) (w : Version) (h : Ordered (lo
     rw [hsingle, lastVal_snoc]
     cases hv : p.2 with
     | none => exact Or.inl rfl
-    | some x => right; simp [hv]
+    | some x => right; simp
 
 /-- the store never holds anything that was not published -/
 theorem store_rows_published (log : List Version) (h : Ordered log) (st : Store) (hst : history log = some st)
